@@ -225,6 +225,7 @@ class Recorder:
 
         @functools.wraps(o_close)
         def w_close(self):
+            rec.emit("on_handler_closing", self)
             try:
                 return o_close(self)
             finally:
